@@ -70,10 +70,14 @@ def Rung.ascVals (m : Mode) (r : Rung) : List Rat :=
 /-- `q` handed to numpy: `prom_quant` for min, `1 - prom_quant` for max. -/
 def Rung.npQ (m : Mode) (r : Rung) : Rat := match m with | .min => r.q | .max => 1 - r.q
 
+/-- magnitude of the operands of the interpolation: the largest `|metric|` in the rung
+(bounds the absolute round-off of the float cutoff by `~2⁻⁵² · scale`). -/
+def Rung.scale (r : Rung) : Rat := (r.data.map (fun e => absRat e.val)).foldl maxRat 0
+
 /-- `metric_val <= cutoff` (min) / `>=` (max), classified forced / free. -/
-def cmpNoWorse (m : Mode) (v cutoff : Rat) : Cmp :=
+def cmpNoWorse (m : Mode) (v cutoff : Rat) (scale : Rat := 1) : Cmp :=
   match m with
-  | .min => cmpLe v cutoff
-  | .max => cmpLe cutoff v
+  | .min => cmpLe v cutoff scale
+  | .max => cmpLe cutoff v scale
 
 end SyneTune
